@@ -1201,6 +1201,25 @@ func constantInt(tv types.TypeAndValue) (int64, bool) {
 	return k, err == nil
 }
 
+// opaqueHere: the package of the function under verification declares the
+// spec function opaque.
+func (e *Engine) opaqueHere(x *exec, name string) bool {
+	pk := e.P.PkgOf(x.topExec().fn)
+	if pk == nil {
+		return false
+	}
+	for _, b := range e.P.Blocks {
+		if b.Kind == "opaque" && b.Pkg == pk.PkgPath {
+			for _, n := range strings.Fields(b.Header) {
+				if n == name {
+					return true
+				}
+			}
+		}
+	}
+	return false
+}
+
 // callSpecOrPure evaluates a call to a spec function (macro-expanded or
 // uninterpreted/ghost) or to a program function marked pure (inlined).
 func (env *specEnv) callSpecOrPure(fo *types.Func, args []Value, n *ast.CallExpr) Value {
@@ -1212,7 +1231,7 @@ func (env *specEnv) callSpecOrPure(fo *types.Func, args []Value, n *ast.CallExpr
 		key = fo.Pkg().Path() + "." + fo.Name()
 	}
 	if sf := e.lookupSpecFn(fo, key); sf != nil {
-		if sf.decl != nil && sf.decl.Body != nil && (len(sf.blk.Of("body")) > 0 || strings.Contains(sf.blk.Header, "{")) {
+		if sf.decl != nil && sf.decl.Body != nil && (len(sf.blk.Of("body")) > 0 || strings.Contains(sf.blk.Header, "{")) && !e.opaqueHere(x, fo.Name()) {
 			// macro expansion of "return <expr>"
 			sub := &specEnv{x: x, cur: env.cur, old: env.old, inOld: env.inOld, vars: map[types.Object]Value{}, oldv: map[types.Object]Value{}, info: sf.info, labels: env.labels}
 			for i, p := range sf.params {
